@@ -480,6 +480,17 @@ class CFG:
                 ds = rd[self.at].get(node.id)
                 if not ds or ds == frozenset([-1]):
                     return node
+                if len(ds) > 1:
+                    # `name = None` definitions cannot be the one seen where `name is not None` holds
+                    mf = me.__dict__.get("_sym_mf")
+                    if mf is None:
+                        mf = me.__dict__["_sym_mf"] = me.must_facts()
+                    fs = mf.get(self.at, frozenset())
+                    if (f"{node.id} is not None", True) in fs or (f"{node.id} is None", False) in fs:
+                        def is_none_def(d_: int) -> bool:
+                            st_ = byid[d_].ast if d_ >= 0 else None
+                            return isinstance(st_, (ast.Assign, ast.AnnAssign)) and isinstance(st_.value, ast.Constant) and st_.value.value is None
+                        ds = frozenset(d_ for d_ in ds if not is_none_def(d_))
                 if len(ds) != 1 or self.depth <= 0:
                     return ast.Name(id=f"φ_{node.id}", ctx=ast.Load())
                 (d,) = ds
